@@ -22,8 +22,12 @@ class CheckerBoard(_CheckerBoard):
 
     """
 
-    def __init__(self, **kwargs):
-        super().__init__(**kwargs)
+    def __init__(
+        self, amplitude=1000, region=(0, 5000, -5000, 0), w_east=None, w_north=None
+    ):
+        super().__init__(
+            amplitude=amplitude, region=region, w_east=w_east, w_north=w_north
+        )
         warnings.warn(
             "Using CheckerBoard from verde.datasets is deprecated and will be "
             "removed in Verde 2.0.0. "
